@@ -50,6 +50,14 @@ CHECKS = {
    "43 closed scenarios on the transformed real code: chans.Merge with 0..5 inputs whose close order is scripted (all permutations for 2 and 3 inputs, four orders each for 4 and 5), and with producer threads on unbuffered inputs; Replicate with 0-2 destinations of capacity 0/1; stream.Merge with 0-3 instrumented scripted inputs (values, immediate end, error at each position, inputs that block until their context ends), read to the end plus two more calls or closed after j values. Explored: all executions with at most 2 preemptions (1 for the scripted close orders) and a bounded number of simultaneous non-default select-arm choices. Oracle: output = interleaving with the same multiset and per-input order; the blocking call returns / End is reported in every execution (deadlock otherwise) and End is sticky; an input's error is the one reported, never End; after the merged stream's Close returned no thread started by it is alive and every input was closed exactly once, never during or before a Next.",
    "As C10. stream.Merge's inputs honour their context. After an error has been reported a value that was already being handed over may still arrive: only the normal end is required to be sticky.",
    "DESIGN.md §4 C12"),
+ "C14": ("gomc", "stateless model checking of the real parallel.MapIterator / MapStream (with the real errgroup and xheap) under a controlled scheduler within iterated preemption and deviation bounds",
+   "31 closed scenarios on the transformed real code: source length 0-5, parallelism 0 (controlled GOMAXPROCS)/1/2/3, bufferSize -1..3, f with a scheduling point inside (late items finish first in every way the bounds allow), MapStream with an instrumented scripted source (values, error at a position, a source that blocks until cancelled), f failing at a position, consumer reading to the end, closing after j results, or using a per-call context that another thread cancels and then retrying. Explored: all executions with at most 2 preemptions (1 for the largest scenarios) and at most 3 simultaneous non-default free choices. Oracle: results = f(x) once each in source order; no deadlock; source items taken minus items yielded never exceeds bufferSize+parallelism+1 (checked at every source pull); MapStream's error is the source's or f's own, never a library-caused cancellation, no result beyond a failed item; after Close returned no worker is alive and the source was closed exactly once, never during a Next.",
+   "As C10. An item that a Next call in progress has already taken from the reorder buffer counts as yielded (only the call's return is visible from outside), so one more item is allowed while the consumer is inside Next.",
+   "DESIGN.md §4 C14"),
+ "C18": ("gomc+seqx", "stateless model checking of Watchable/Future/Lazy under a controlled scheduler (preemption bound 3/4) plus exhaustive enumeration of all xsync.Map operation sequences against sync.Map",
+   "Concurrent part (13 scenarios, transformed real code): 0-2 setter threads with 1-2 Sets each and 1-2 observers running the documented loop, incl. Value racing the first Set; at quiescence an observer parked on an unclosed channel must hold the current value, the final value is some setter's last one, a closed channel always comes with a new value, zero only before the first Set. Future: Fill racing Wait/WaitContext callers and a canceller; Lazy: 2-3 concurrent first calls with a scheduling point inside f. Typed-map part: every sequence of Load/Store/LoadOrStore/LoadAndDelete/Delete/Swap/CompareAndSwap/CompareAndDelete/Range of depth <= 4 (thorough 5) over 2 keys and zero/non-zero/nil values for V = int, string, error and any, each step compared with sync.Map (absent = zero value, no panic unless sync.Map panics).",
+   "As C10 for the concurrent part. The typed map is compared with the sync.Map of the toolchain in use.",
+   "DESIGN.md §4 C18"),
 }
 props = [json.loads(l) for l in open(os.path.join(ROOT, "properties.jsonl"))]
 hook_commits = subprocess.run(["git","-C","/repo","log","--format=%H %s","--grep=^verif hook"],capture_output=True,text=True).stdout.strip().splitlines()
